@@ -28,7 +28,9 @@ def iters(report, ctx, rng, n, thorough=False):
                                                 lambda nm, part: ctx_impl.iter_request('B', '', nm, [(cases[k][4], cases[k][2]) for k in part]), 10)
         for part, outs in zip(owners, ctx_check.run_model(mr, reqs, None)):
             for k, o in zip(part, outs):
-                report.corr_case('ctxiter', {'what': cases[k][1], 'loop_id': cases[k][4], 'text': cases[k][2][:3000]}, o, impl[k])
+                if not report.corr_case('ctxiter', {'what': cases[k][1], 'loop_id': cases[k][4], 'text': cases[k][2][:3000]}, o, impl[k]):
+                    # kept in full: the property's oracle is applied to the inputs on which model and implementation part
+                    report.__dict__.setdefault('disagreeing_inputs', []).append((cases[k][1], cases[k][2], cases[k][4]))
     return cases
 
 
